@@ -617,7 +617,21 @@ def B2_axis_runs(repo, clause, funcs=None):
                           "sibling expressions differ only in the integer(s) %s: %s" % (
                               [list(c) for c in varying], "consecutive" if ok else "NOT consecutive (an axis/label index is repeated or skipped)"),
                           slot="run:%s" % re.sub(r"\s+", " ", ast.unparse(elts[0]))[:60], positive=True))
-    floor("B2", "axis/label runs", n, 1 if funcs else 4)
+    # a hand-written run that was folded into a loop over the axes / labels agrees with itself by construction: such loops count towards the coverage floor
+    n_loops = 0
+    for fn in repo.all_fns():
+        if funcs is not None and fn.qualname not in funcs:
+            continue
+        for node in fn.all_nodes():
+            it = node.iter if isinstance(node, (ast.For, ast.comprehension)) else None
+            if it is None:
+                continue
+            if isinstance(it, ast.Call) and call_name(it) in ("zip", "enumerate") and it.args:
+                it = it.args[0]
+            if (isinstance(it, ast.Call) and call_name(it) == "range" and len(it.args) == 1 and const_value(it.args[0]) in (3, 4)) or \
+                    (isinstance(it, (ast.Tuple, ast.List)) and 3 <= len(it.elts) <= 4) or (isinstance(it, ast.Constant) and isinstance(it.value, str) and 3 <= len(it.value) <= 4):
+                n_loops += 1
+    floor("B2", "axis/label runs (or loops over the axes)", n + n_loops, 1 if funcs else 4)
     return obs
 
 
